@@ -116,7 +116,8 @@ def one(ctx, desc):
         if sorted(r["name"] for r in p["rows"]) != sorted(names):
             ctx.oracle(desc, "phase_lists_every_component", "solve", {}, {"phase": p["phase"]})
     # ---- oracle 2: solve(phase=p) == rows of phase p
-    for ph in (phs if ctx.thorough() else [ctx.rng.choice(phs)]):
+    zero_dur = [p_ for p_ in phs if not desc["phases"][p_]]          # a phase of zero duration is always asked for on its own as well
+    for ph in (phs if ctx.thorough() else list(dict.fromkeys([ctx.rng.choice(phs)] + zero_dur))):
         dfp, e = sysdesc.quiet_call(sys_.solve, phase=ph, **TOL, **(desc.get("_call") or {}))
         if e is not None:
             ctx.oracle(desc, "solve_phase_is_slice", "solve", {}, {"phase": ph, "exception": repr(e)})
@@ -169,7 +170,7 @@ def one(ctx, desc):
 
 
 def gen_fn(rng):
-    if rng.random() < 0.08:
+    if rng.random() < 0.15:
         return gen.zero_vs_omitted(rng)      # two phases that differ only in "explicit 0" vs "not listed" for one load
     d = gen.gen_system(rng, phases=1.0, max_nodes=12, p_neg_src_rs=0.0, p_mux=0.4, p_micro=0.2)
     if rng.random() < 0.12:
